@@ -3442,7 +3442,7 @@ static Token *global_variable(Token *tok, Type *basety, VarAttr *attr) {
 
     if (equal(tok, "="))
       gvar_initializer(&tok, tok->next, var);
-    else if (!attr->is_extern && !attr->is_tls)
+    else if (!attr->is_extern)
       var->is_tentative = true;
   }
   return tok;
